@@ -81,6 +81,24 @@ CHECKS = {
         technique="Lean 4 proof about the evaluator's store + exhaustive aliasing matrix and random programs through the real compiler",
         ref="§5 C08",
     ),
+    "C10": dict(
+        text=("Proof (Lean 4) about DDP.Modules.visit/initSeq, a transcription of the initialisation walk (only the main module calls "
+              "initialisers; at each of its import statements, in source order, the imported module and everything it imports are "
+              "visited depth first, imports before the importer, skipping what is already initialised): in every ranked (acyclic) import "
+              "graph each module is initialised at most once (init_once), every imported module is initialised (imported_initialised), "
+              "the imports of a newly initialised module stand before it in the sequence (imports_first), earlier results are a prefix "
+              "of later ones and a later import of an initialised module adds nothing (visit_prefix, later_import_skips); visibility: "
+              "only public declarations are ever visible, a whole-module import shows all of them, a by-name import exactly the listed "
+              "names (private_never_visible, import_all_is_all_public, import_listed_is_exactly_listed). Tie: generated module DAGs "
+              "(2..5 modules, whole and by-name imports in random order) whose initialisers print and depend on the imported globals, "
+              "private globals and same-named private declarations in every module, top-level statements that must not run; stdout "
+              "compared with the model's sequence; fixed negative programs (private / unlisted / unknown / transitive names, private "
+              "field, import cycles of length 1-3) must be rejected with a diagnostic."),
+        note=TB + "The model's walk has no in-progress marks (DAGs only); cycles are covered by the negative programs. Name mangling per "
+             "module ('distinct objects at run time') is checked by programs only.",
+        technique="Lean 4 proof about a transcription of the initialisation walk + generated multi-module programs through the real compiler",
+        ref="§5 C10",
+    ),
     "C11": dict(
         text=("Proof (Lean 4): the evaluation rules have no optimisation level or link mode (one_behaviour), and the one lowering the code "
               "generator itself changes with the level — passing a constant value parameter without a copy at -O 2 — is unobservable "
